@@ -109,6 +109,54 @@ def explore_embedded(S, want=('C04',)):
     return found
 
 
+def explore_field_target(S, want=('C04',)):
+    """`(lit).name`: a parenthesised literal as target of a field access; without the parentheses a literal that ends in a dot
+    (`1.`) runs into the dot of the access (`1..name`: the lexer reads `1` `..`)"""
+    kt = T.KT
+    core = S.core
+    f_expr = S.find_fn(core, 'PrettyPrinter::convert_expr')
+    found = []
+    for kind, lit in LITS:
+        def body(ctx, kind=kind, lit=lit):
+            m = S.machine(core, STD, ctx)
+            litn = Node(kt.k(kind), text=Str.lit(lit))
+            par = Node(kt.k('Parenthesized'), children=[Node(kt.k('LeftParen'), text=Str.lit('(')), litn, Node(kt.k('RightParen'), text=Str.lit(')'))])
+            fa = Node(kt.k('FieldAccess'), children=[par, Node(kt.k('Dot'), text=Str.lit('.')), Node(kt.k('Ident'), text=Str.lit('name'))])
+            pr, cfg = pp.printer(m)
+            c0 = pp.context()
+            ctx.assume(z3.ULT(c0.get('mode').disc, 4))
+            describe = lambda mdl: dict(container='field-access', kind=kind, literal=lit, next_char='.', suppressed=model_bool(mdl, c0.get('break_suppressed')),
+                                        mode=model_int(mdl, c0.get('mode').disc))
+            try:
+                d = m.call_fn(f_expr, [pr, c0, T.make_cast(m, fa, 'Expr')])
+            except Panic as p:
+                S.absorb(m)
+                ctx.must_hold(False, 'C05:embedded-literal-panic', lambda mdl: dict(describe(mdl), panic=p.msg))
+                return
+            S.absorb(m)
+            if want[0] == 'C05':
+                return
+            for mode, at in atoms_modes(d).items():
+                ft = [a for a in _flat_text(at) if a != ('c', '')]
+                idx = [i for i, a in enumerate(ft) if a == ('c', lit)]
+                if len(idx) != 1:
+                    ctx.must_hold(False, '%s:embedded-literal-lost' % want[0], lambda mdl, at=at, mode=mode: dict(describe(mdl), layout=mode, atoms=show_atoms(at)))
+                    continue
+                after = ft[idx[0] + 1] if idx[0] + 1 < len(ft) else None
+                if after == ('c', ')'):
+                    ctx.witness('parentheses kept')
+                    continue
+                ctx.witness('parentheses omitted')
+                touching = after is not None and after[0] == 'c' and after[1].startswith('.')
+                ctx.must_hold(not (touching and lit.endswith('.')), '%s:embedded-literal-loses-parentheses-and-fuses' % want[0],
+                              lambda mdl, at=at, mode=mode: dict(describe(mdl), layout=mode, atoms=show_atoms(at)))
+        ob, ex = S.explore('embedded[field-access,%s %s]' % (kind, lit), 'a parenthesised %s literal `(%s).name` as target of a field access: the parentheses are only dropped '
+                           'when the literal does not end in a dot' % (kind, lit), body)
+        for lab, mdl, info in ex.violations:
+            found.append((lab, info))
+    return found
+
+
 def leaves(S, text):
     r = S.driver.call('leaves', hexs(text))
     if r[0] != 'ok':
@@ -126,7 +174,10 @@ def significant(toks):
 
 def confirm_embedded(S, info):
     lit, ch = info['literal'], info['next_char']
-    src = ('#(%s)%s\n' if info['container'] == 'markup' else '$#(%s)%s$\n') % (lit, ch)
+    if info['container'] == 'field-access':
+        src = '#(%s).name\n' % lit
+    else:
+        src = ('#(%s)%s\n' if info['container'] == 'markup' else '$#(%s)%s$\n') % (lit, ch)
     err, toks = leaves(S, src)
     if err or toks is None:
         return None
